@@ -123,7 +123,13 @@ func (a *Allocation) AddPermission(perms *Permission) {
 func (a *Allocation) RemovePermission(addr net.Addr) {
 	a.permissionsLock.Lock()
 	defer a.permissionsLock.Unlock()
-	delete(a.permissions, ipnet.FingerprintAddr(addr))
+
+	// Only report a deletion that happened: expiry and teardown may both try to remove it.
+	fingerprint := ipnet.FingerprintAddr(addr)
+	if _, ok := a.permissions[fingerprint]; !ok {
+		return
+	}
+	delete(a.permissions, fingerprint)
 
 	if a.eventHandler.OnPermissionDeleted != nil {
 		if u, ok := addr.(*net.UDPAddr); ok {
